@@ -405,3 +405,6 @@ fn prefix_compare(s1: &[u8], s2: &[u8], best_len: u32, max_len: u32) -> u32 {
 
     match_len
 }
+
+#[path = "../../export/hash_chain_holder.rs"]
+pub mod verif_export;
